@@ -157,7 +157,7 @@ func (vc *VC) define(prefix, sort, term string) string {
 }
 
 func (vc *VC) assume(pc, fact string) {
-	if fact == "true" {
+	if fact == "true" || fact == "" {
 		return
 	}
 	// top-level conjunctions become separate hypotheses (finer relevance slicing)
@@ -785,6 +785,9 @@ func (vc *VC) analyseLoops() {
 					}
 					continue
 				}
+				if _, isPhi := in.(*ssa.Phi); isPhi {
+					continue // a phi carries the position of the variable's declaration, which may precede the loop
+				}
 				if p := in.Pos(); p.IsValid() && p < minPos {
 					minPos = p
 				}
@@ -802,6 +805,9 @@ func (vc *VC) analyseLoops() {
 		return ls[i].idx < ls[j].idx
 	})
 	for n, l := range ls {
+		if os.Getenv("GOVC_LOOP_DEBUG") != "" {
+			println("LOOP", vc.name, "head block", l.idx, "ord", n+1, "pos", vc.w.prog.Fset.Position(l.pos).String(), "size", l.size)
+		}
 		vc.loopHead[l.idx].ord = n + 1
 		if vc.fc != nil {
 			vc.loopHead[l.idx].lc = vc.fc.Loops[n+1]
